@@ -408,3 +408,41 @@ func ZZ_C12_confine_par() {
 	}
 	p.confined(m, scopes, aud)
 }
+
+// ZZ_C12_confine_reconfigured: the configured strategies are REPLACED between two requests on one provider
+// (an operator tightening the policy, or a per-tenant configuration): the second request is decided by the
+// strategies configured at that moment, not by whatever an earlier request saw.
+func ZZ_C12_confine_reconfigured() {
+	p1, p2 := &policy{}, &policy{}
+	w := newWorld0(p1)
+	clientAud = []string{"https://api.example/v1"}
+	scopes, aud := pick()
+	flow := zz.Choice("flow", 3)
+	run := func() error {
+		switch flow {
+		case 0:
+			_, err := w.TokenAs("c1", world.Secret1, tokenForm("client_credentials", scopes, aud))
+			return err
+		case 1:
+			f := tokenForm("password", scopes, aud)
+			f.Set("username", "peter")
+			f.Set("password", "pw-peter")
+			_, err := w.TokenAs("c1", world.Secret1, f)
+			return err
+		}
+		_, err := authorize(w, "code", scopes, aud, world.NewSession("peter"))
+		return err
+	}
+	_ = run() // whatever the first policy says
+	w.Cfg.ScopeStrategy = p2.scopeStrategy
+	w.Cfg.AudienceMatchingStrategy = p2.audStrategy
+	n1s, n1a := len(p1.scope), len(p1.aud)
+	m := p2.mark()
+	err := run()
+	zz.Assert(len(p1.scope) == n1s && len(p1.aud) == n1a, "reconfigured: the replaced strategies are not consulted any more")
+	if !outcome(err) {
+		return
+	}
+	p2.confined(m, scopes, aud)
+	zz.Cover("reconfigured:second-request-accepted-by-the-new-policy", true)
+}
